@@ -734,6 +734,9 @@ impl SixtyCycleDay {
       if !solar_day.is_before(spring_solar_day) {
         lunar_year = lunar_year.next(1);
       }
+    } else {
+      // 农历年已先于公历年（正月初一落在公历12月，如公元9-23年），此时仍属立春后的本年
+      lunar_year = lunar_year.next(-1);
     }
     let term: SolarTerm = solar_day.get_term();
     let mut index: isize = term.get_index() as isize - 3;
@@ -909,6 +912,9 @@ impl SixtyCycleHour {
       if !solar_time.is_before(spring_solar_time) {
         lunar_year = lunar_year.next(1);
       }
+    } else {
+      // 农历年已先于公历年（正月初一落在公历12月，如公元9-23年），此时仍属立春后的本年
+      lunar_year = lunar_year.next(-1);
     }
     let term: SolarTerm = solar_time.get_term();
     let mut index: isize = term.get_index() as isize - 3;
